@@ -173,6 +173,7 @@ pub struct IntConversionError { pub x: u8 }
 pub enum UncatchableError {
     MalformedCallServiceFailed(SerdeError),
     CallResultNotCorrespondToInstr(ValueRef),
+    InstructionParametersMismatch { param: &'static str, expected_value: String, stored_value: String },
     Other(u8),
 }
 impl From<IntConversionError> for UncatchableError { fn from(e: IntConversionError) -> Self { UncatchableError::Other(0) } }
@@ -510,32 +511,31 @@ pub open spec fn prev_state_table(
     }
 }
 
+//@ lift air/src/execution_step/instructions/call/prev_result_handler.rs :: fn try_get_argument_hash
+//@ props C01 C05
+//@ ret r
+//@ rewrite 1 "expected_value: \"arguments of the call aren't resolved yet\".to_owned()," => "expected_value: opaque_string(),"
+//@ rewrite 1 "stored_value: \"a result of the call\".to_owned()," => "stored_value: opaque_string(),"
+//@ spec
+    ensures r is Ok <==> argument_hash is Some,
+        r matches Ok(h) ==> argument_hash == Some(h),
+//@ end
+
 //@ lift air/src/execution_step/instructions/call/prev_result_handler.rs :: fn handle_prev_state
-//@ props C05 C06 C07
+//@ props C01 C05 C06 C07
 //@ ret r
 //@ rewrite 1 "verifier::verify_call(" => "verify_call("
 //@ rewrite 1 ".map_err(UncatchableError::MalformedCallServiceFailed)" => ".map_err(|e: SerdeError| -> (o: UncatchableError) { UncatchableError::MalformedCallServiceFailed(e) })"
 //@ spec
-    requires
-        argument_hash is None ==> !hash_needed(met_result.result, *old(exec_ctx)),      // INV-1, see above
+    // C01.V8: no precondition -- every CallResult shape x argument_hash in {None, Some}, hostile data included (F6)
     ensures
+        // a result in data for a call whose arguments cannot be resolved here is rejected, never unwrapped
+        (argument_hash is None && hash_needed(met_result.result, *old(exec_ctx))) ==> r is Err,
         // whatever the state: no call request, no forwarding, the id counter is untouched
         same_but_results(*old(exec_ctx), *final(exec_ctx)),
         prev_state_table(met_result.result, tetraplet.peer_pk@, *old(exec_ctx), *final(exec_ctx),
             old(trace_ctx).pushed@, final(trace_ctx).pushed@, r),
 //@ end
-
-// C01.V8: the same text for *every* CallResult shape x argument_hash in {None, Some}, hostile data included:
-// no precondition at all. Fails today at the three unwrap/expect sites (F6).
-pub mod hostile {
-    use super::*;
-//@ lift air/src/execution_step/instructions/call/prev_result_handler.rs :: fn handle_prev_state
-//@ name handle_prev_state/total
-//@ props C01
-//@ rewrite 1 "verifier::verify_call(" => "verify_call("
-//@ rewrite 1 ".map_err(UncatchableError::MalformedCallServiceFailed)" => ".map_err(|e: SerdeError| -> (o: UncatchableError) { UncatchableError::MalformedCallServiceFailed(e) })"
-//@ end
-}
 
 } // verus!
 fn main() {}
